@@ -722,6 +722,33 @@ func (fr *frame) applyContract(ctr *FuncContract, callee *ssa.Function, cc *ssa.
 		g := env.tr(ctr.PureDef.E)
 		fc.fact("", "(=> %s (= %s %s))", R, resName, g.T)
 	}
+	// pure single-result functions are mathematical functions of their arguments
+	if ctr.Pure && !ctr.Trusted && callee != nil && callee.Blocks != nil && callee.Parent() == nil && resName != "" && callee.Signature.Results().Len() == 1 && len(callee.FreeVars) == 0 && !heapDependent(callee) {
+		name, _ := fc.pureFun(callee)
+		fc.fact("", "(=> %s (= %s (%s %s)))", R, resName, name, strings.Join(argTerms, " "))
+	}
+}
+
+// heapDependent: a function with pointer / map / interface parameters may read the heap; its result is then not a function of
+// its argument values alone.
+func heapDependent(fn *ssa.Function) bool {
+	for _, p := range fn.Params {
+		switch p.Type().Underlying().(type) {
+		case *types.Pointer, *types.Map, *types.Interface, *types.Chan:
+			return true
+		}
+	}
+	return false
+}
+
+func (fc *FnCtx) pureFun(fn *ssa.Function) (string, []string) {
+	name := "pf_" + mangle(calleePkgPath(fn)+"."+fn.Name())
+	var ss []string
+	for _, p := range fn.Params {
+		ss = append(ss, fc.P.SortOf(p.Type()))
+	}
+	fc.P.Declare(name, fmt.Sprintf("(declare-fun %s (%s) %s)", name, strings.Join(ss, " "), fc.P.SortOf(fn.Signature.Results().At(0).Type())))
+	return name, ss
 }
 
 func (fr *frame) resultAssumeT(resName string, resT types.Type, st *State) {
@@ -1120,7 +1147,7 @@ func (fr *frame) baseEnv(st *State) *Env {
 	if fr.fn.Pkg != nil {
 		tpkg = fr.fn.Pkg.Pkg
 	}
-	return &Env{fc: fc, tpkg: tpkg, names: map[string]TV{}, cur: st, old: fr.entryState}
+	return &Env{fc: fc, tpkg: tpkg, names: map[string]TV{}, cur: st, old: fr.entryState, loopEntry: fr.loopEntry}
 }
 
 func (fr *frame) loopInvariants(h *ssa.BasicBlock) []*Clause {
@@ -1166,8 +1193,10 @@ func (fr *frame) checkInvariants(h *ssa.BasicBlock, preds []*ssa.BasicBlock, pre
 			kind = "invariant-preserved"
 		}
 		for _, c := range invs {
-			g := env.tr(c.E)
-			fc.obls = append(fc.obls, &Obl{Func: fc.key, Kind: kind, Label: fmt.Sprintf("loop%d:%s", c.Loop, c.Label), Site: fmt.Sprintf("%sb%d", fr.prefix, p.Index), NFacts: len(fc.facts), Path: e, Goal: g.T, Using: c.Using, Stage: c.Stage, Loop: c.Loop, Text: c.Text})
+			for k, part := range splitConj(c.E) {
+				g := env.tr(part)
+				fc.obls = append(fc.obls, &Obl{Func: fc.key, Kind: kind, Label: fmt.Sprintf("loop%d:%s", c.Loop, c.Label), Site: fmt.Sprintf("%sb%d.%d", fr.prefix, p.Index, k), NFacts: len(fc.facts), Path: e, Goal: g.T, Using: c.Using, Stage: c.Stage, Loop: c.Loop, Text: c.Text})
+			}
 		}
 	}
 }
